@@ -292,7 +292,7 @@ func relRef(from, to string) string {
 	return strings.Join(parts, "/")
 }
 
-var BundleTargets = []string{"localDef", "remoteDef", "remoteChain", "remoteRecursive", "remoteCrossFileCycle", "remoteSiblingCircular", "remoteSameNameDocs", "selfRecursive", "mutualRecursive", "arrayOfSelf", "mapOfSelf",
+var BundleTargets = []string{"localDef", "remoteDef", "remoteChain", "remoteRecursive", "remoteCrossFileCycle", "remoteSiblingCircular", "remoteSameNameDocs", "remoteSameNameDocsRecursive", "selfRecursive", "mutualRecursive", "arrayOfSelf", "mapOfSelf",
 	"anonProperty", "anonItems", "anonAllOf", "anonAdditionalProperties", "anonSharedParam", "anonSharedResponse",
 	"inlineObject", "inlineTuple", "inlineAllOf", "inlineAllOfMap", "inlineObjectMap", "inlineTupleExtra"}
 
@@ -376,6 +376,19 @@ func (b *Bundle) Target(kind, name string) string {
 		b.AuxDef("sub/defs.json", tag, jx.Obj{"type": "string", "maxLength": float64(8), "description": b.lbl("far")})
 		b.AuxDef("sub/deep/defs.json", tag, jx.Obj{"type": "integer", "format": "int32", "description": b.lbl("near")})
 		return "sub/deep/aux1.json#/definitions/" + jx.EscTok(th)
+	case "remoteSameNameDocsRecursive":
+		// the same, with a document next to the root and one in a sub-directory, the referrer being a recursive
+		// definition of the sub-directory (what Expand leaves behind is imported raw, its relative refs rebased then)
+		th, tag := nm("Node"), b.lbl("Tag")
+		b.AuxDef("cmn.json", tag, jx.Obj{"type": "string", "maxLength": float64(8), "description": b.lbl("top")})
+		b.AuxDef("sub/cmn.json", tag, jx.Obj{"type": "integer", "format": "int32", "description": b.lbl("sub")})
+		b.AuxDef("sub/mid.json", th, jx.Obj{"type": "object", "description": b.lbl("mid"), "properties": jx.Obj{
+			"next": jx.Obj{"$ref": "#/definitions/" + jx.EscTok(th)},
+			"tag":  jx.Obj{"$ref": "cmn.json#/definitions/" + jx.EscTok(tag)}}})
+		op := b.Op(b.newPath(), "get", true)
+		jx.AsObj(op["responses"])["200"] = jx.Obj{"description": b.lbl("top"), "schema": jx.Obj{"$ref": "cmn.json#/definitions/" + jx.EscTok(tag)}}
+		b.Tag("cycle")
+		return "sub/mid.json#/definitions/" + jx.EscTok(th)
 	case "remoteSiblingCircular":
 		// a self-recursive definition of sub/a.json, reached from the root as sub/a.json#/... and from its sibling sub/s.json as a.json#/...
 		x, sname := nm("SibX"), b.lbl("SibS")
